@@ -509,7 +509,7 @@ def gen_cases(ctx, cfg=None):
             cases += [{"n": n, "u": u} for u in neg_step_slices(n)]
         cases += multi_cases(rng, sizes, ctx.scaled(50, 700), ctx.scaled(16, 200))
     # for-STATEMENTS in a function body called from the model, and NESTED for-equations (inner index may hide the outer one)
-    cases += func_and_nest_cases(rng, sizes, ctx.scaled(70, 600), ctx.scaled(70, 600), bool(cfg and cfg.get("mod3")))
+    cases += func_and_nest_cases(rng, sizes, ctx.scaled(50, 600), ctx.scaled(50, 600), bool(cfg and cfg.get("mod3")))
     # 2-D without a loop: scalar / colon / slice in both positions
     two = []
     for n, m in itertools.product(ctx.scaled([1, 2, 3], [1, 2, 3, 4]), repeat=2):
